@@ -1,7 +1,8 @@
 /-
   Finv (C04), part 26: one step and histories — every call in `Op.core` preserves the invariant.
 -/
-import XotModel.Lemmas.FinvUnwrap2
+import XotModel.Lemmas.FinvClone2
+import XotModel.Lemmas.FinvReplFinal
 
 namespace XotModel
 namespace Forest
@@ -37,10 +38,10 @@ theorem step_inv {f : Forest} (hi : f.Inv) (o : Op) (hc : o.core = true) : (f.st
   | textContentSet n s => exact textContentSet_inv hi n s
   | setConsolidation b => exact setConsolidation_inv hi b
   | removeInsignificantWhitespace n => exact removeInsignificantWhitespace_inv hi n
-  | replace a b => cases hc
+  | replace a b => exact replace_inv hi a b
   | elementWrap n name => exact elementWrap_inv hi n name
   | elementUnwrap n => exact elementUnwrap_inv hi n
-  | cloneNode n => cases hc
+  | cloneNode n => exact cloneNode_inv hi n
 
 theorem run_inv {f : Forest} (hi : f.Inv) (ops : List Op) (hc : ∀ o ∈ ops, o.core = true) :
     (f.run ops).Inv := by
